@@ -230,7 +230,7 @@ def run_nack(fe, reason, target, hdrs=()):
     mid = dict(w.outcomes)
     calls_mid = list(w.calls)
     o = w.finish()
-    exp_named = {'/n/a': ('a-exact', 'a-prefix'), '/n/b': ('b',), '/h/q': (), '/n/a+digest': ('a-digest',)}[target]
+    exp_named = {'/n/a': ('a-exact', 'a-prefix'), '/n/b': ('b',), '/h/q': (), '/n/a+digest': ('a-digest',), '/n/a/x': (), '/n': ()}[target]
     for key in ('a-exact', 'a-prefix', 'b', 'a-digest'):
         got = mid.get(key)
         if key in exp_named:
@@ -391,7 +391,7 @@ def unit(arg):
         acc.sample({'diff': [arg['fe'], arg['state'], arg['pkt']], 'last_header_subset': hdrs, 'summary(calls,outcomes,sent)': repr(summary)})
     elif k == 'nack':
         for reason in REASONS + [None]:
-            for target in ('/n/a', '/n/b', '/h/q', '/n/a+digest'):
+            for target in ('/n/a', '/n/b', '/h/q', '/n/a+digest', '/n/a/x', '/n'):
                 for hdrs in ((), ('token',), ('cong', 'inface'), ('sequence',), ('sequence', 'hopcount', 'token')):
                     v, summary = run_nack(arg['fe'], reason, target, hdrs)
                     acc.evaluations += 1
